@@ -330,7 +330,7 @@ fn op_kind(op: &Op) -> &'static str {
 
 const RULE_NAMES: [&str; 4] = ["r1", "R1", "r 1", ""];
 const FN_NAMES: [&str; 8] = ["f1", "F1", "_f", "if", "key", "f-1", "é", "f1"];
-const SYM_NAMES: [&str; 3] = ["s", "S", "s2"];
+const SYM_NAMES: [&str; 6] = ["s", "S", "s2", "key", "val", "if"];
 
 fn gen_history(bytes: &[u8]) -> Vec<Op> {
     let mut d = Dec::new(bytes);
